@@ -5,7 +5,8 @@ HOOKS = {
     "guard": "verif",
     "enable": "go build -tags verif (the harness module /verif/harness replaces github.com/gopherjs/gopherjs by /repo)",
     "baseline_off_cmd": BASELINE_OFF,
-    "source_commits": ["verif hook: expose the go/build context configured by goCtx (build/verif_hooks_c18.go)"],
+    "source_commits": ["verif hook: expose the go/build context configured by goCtx (build/verif_hooks_c18.go)",
+                       "verif hook: expose encodeString (compiler/verif_hooks_c14.go)"],
     "add_only": True,
 }
 
